@@ -1,6 +1,7 @@
 package main
 
 import (
+	"reflect"
 	"fmt"
 	"os"
 	"path/filepath"
@@ -146,7 +147,46 @@ func dumpTables(dir string) {
 		}
 		fmt.Fprintf(&sb, "%d", m.Code)
 	}
-	sb.WriteString("].\n")
+	sb.WriteString("].\n\n")
+	// ---- case mapping of the builtins upper / lower on every code point (one-character strings), as maximal
+	// ranges (lo, hi, delta); a result that is not one character is listed with delta 0 under impl_case_odd
+	bt := formula.VerifBuiltins()
+	var odd []string
+	for _, nm := range []string{"upper", "lower"} {
+		fn := reflect.ValueOf(bt[nm])
+		type rg struct{ lo, hi, d rune }
+		var out []rg
+		for c := rune(0); c <= 0x10FFFF; c++ {
+			if c >= 0xD800 && c <= 0xDFFF {
+				continue
+			}
+			res := fn.Call([]reflect.Value{reflect.ValueOf(string(c))})
+			str, _ := res[0].Interface().(string)
+			rs := []rune(str)
+			if len(rs) != 1 || !res[1].IsNil() || (rs[0] == 0xFFFD && c != 0xFFFD) {
+				odd = append(odd, fmt.Sprintf("%d", c))
+				continue
+			}
+			d := rs[0] - c
+			if d == 0 {
+				continue
+			}
+			if n := len(out); n > 0 && out[n-1].hi == c-1 && out[n-1].d == d {
+				out[n-1].hi = c
+			} else {
+				out = append(out, rg{c, c, d})
+			}
+		}
+		fmt.Fprintf(&sb, "Definition impl_%s_ranges : list (Z * Z * Z) :=\n  [", nm)
+		for i, r := range out {
+			if i > 0 {
+				sb.WriteString("; ")
+			}
+			fmt.Fprintf(&sb, "(%d, %d, %d)", r.lo, r.hi, r.d)
+		}
+		sb.WriteString("].\n")
+	}
+	fmt.Fprintf(&sb, "Definition impl_case_odd : list Z := [%s].\n", strings.Join(odd, "; "))
 	os.MkdirAll(dir, 0o755)
 	if err := os.WriteFile(filepath.Join(dir, "ImplTables.v"), []byte(sb.String()), 0o644); err != nil {
 		panic(err)
